@@ -11,7 +11,7 @@ try:
     if r.returncode != 0:
         print("STALE", r.stdout, r.stderr); sys.exit(3)
     for prop in props:
-        r = subprocess.run(["/verif/bin/nvcheck", "-property", prop, "-overlay-dir", od, "-out", od + "/out", "-known", "/verif/known_findings.json"], capture_output=True, text=True)
+        r = subprocess.run([os.environ.get("NVCHECK", "/verif/bin/nvcheck"), "-property", prop, "-overlay-dir", od, "-out", od + "/out", "-known", "/verif/known_findings.json"], capture_output=True, text=True)
         lines = [l for l in r.stdout.splitlines() if "rule " in l and ("[violation]" in l or "[coverage-lost]" in l)]
         print(prop, "exit", r.returncode)
         for l in lines: print("   ", l.strip()[:300])
